@@ -153,7 +153,9 @@ def main(argv=None):
         if v == "inconclusive":
             harness_errors.append("%s: inconclusive (%s)" % (r["id"], r.get("message") or r.get("messages")))
         else:
-            harness_errors.append("%s: %s" % (r["id"], json.dumps(r.get("error"))[:1500]))
+            err = r.get("error") or {}
+            harness_errors.append("%s: %s | decisions %s" % (r["id"], str(err.get("error"))[:400], json.dumps(err.get("decisions"))[:300]))
+            r["traceback"] = err.get("traceback")
 
     for (base, name), n in sorted(antecedent_totals.items()):
         if n == 0:
